@@ -596,7 +596,55 @@ func run(c *props.Ctx) {
 				Replay: replayDoc{Kind: "seq-long", Custom: false, Quick: true, Path: v.Path, Ops: v.Ops}})
 		}
 	}
+	if c.Mine(2) {
+		queuedEntries(c)
+	}
 	runConc(c)
+}
+
+// queuedEntries: an entry that is made to wait inside Entry (a throttling flow rule; sleeping advances the
+// clock) is one request from the moment Entry was called: its completion carries the whole response time,
+// the wait included. k back-to-back requests under 10 per second, each exited at once.
+func queuedEntries(c *props.Ctx) {
+	for _, inbound := range []bool{false, true} {
+		env.ResetAll(env.DefaultGeometry, T0)
+		env.Clock.SleepAdvances = true
+		if _, err := flow.LoadRules([]*flow.Rule{{Resource: "q", ControlBehavior: flow.Throttling, Threshold: 10, MaxQueueingTimeMs: 1000}}); err != nil {
+			panic(err)
+		}
+		var wantRt, wantN int64
+		for k := 0; k < 4; k++ {
+			before := env.Clock.Ms()
+			opts := []sentinel.EntryOption{}
+			if inbound {
+				opts = append(opts, sentinel.WithTrafficType(base.Inbound))
+			}
+			e, blk := sentinel.Entry("q", opts...)
+			if blk != nil {
+				break
+			}
+			e.Exit()
+			wantRt += env.Clock.Ms() - before
+			wantN++
+		}
+		c.R.Evaluations++
+		c.R.Outcome(fmt.Sprintf("queued|%v|%d|%d", inbound, wantN, wantRt))
+		nodes := []*stat.ResourceNode{stat.GetResourceNode("q")}
+		if inbound {
+			nodes = append(nodes, stat.InboundNode())
+		}
+		for _, n := range nodes {
+			if n == nil {
+				continue
+			}
+			if got, gotN := n.GetSum(base.MetricEventRt), n.GetSum(base.MetricEventComplete); got != wantRt || gotN != wantN {
+				c.R.Violate(report.Violation{Signature: "C01:accounting-mismatch:queued-entry",
+					What:     fmt.Sprintf("%d back-to-back requests under a throttling rule of 10 per second (inbound=%v): %d completions with a response-time sum of %d ms, the requests took %d ms between the call of Entry and Exit (%d completions)", wantN, inbound, gotN, got, wantRt, wantN),
+					Scenario: "queued entries", Replay: replayDoc{Kind: "queued"}})
+				break
+			}
+		}
+	}
 }
 
 func longOps() []opDef {
@@ -616,6 +664,9 @@ func replay(c *props.Ctx, raw json.RawMessage) (bool, string) {
 	}
 	if d.Kind == "conc" {
 		return replayConc(raw)
+	}
+	if d.Kind == "queued" {
+		return false, "the queued-entries cases are re-evaluated by the quick check itself"
 	}
 	s := &scen{Custom: d.Custom, Quick: d.Quick, ops: mkOps(d.Custom, d.Quick)}
 	if d.Kind == "seq-long" {
